@@ -138,6 +138,8 @@ def check_C06(ctx):
     fac = ctx.guard("F", R.premise_factor, ctx)
     if fac and tabs:
         ctx.guard("C06.cards-to-class", R.premise_residual, ctx, fac, tabs[2], "C06.cards-to-class", "class")
+    # six and seven cards: the reported rank is the rank of the best five-card hand they contain (C02's loop rule)
+    R.check_bestof(ctx, "C06.bestof", R.NEED_MIN)
 
 
 def cell_constants_loose(node, atom_name):
